@@ -2,7 +2,9 @@ package c02
 
 import (
 	"context"
+	"errors"
 	"fmt"
+	"io"
 	"net"
 	"testing"
 
@@ -65,6 +67,7 @@ type connOutcome struct {
 	ws      [2]writeResult
 	applied bool
 	offset  int
+	cutClass int // truncation: where the cut fell (cutClass)
 }
 
 var capSizes = []int{0, 0, 0, 4096, 65537, 17, 1, 1 << 20} // rapid favours the front
@@ -160,7 +163,11 @@ func runConnCase(f failer, env runEnv, c *connCase, lp layerParams, setup secure
 		f.Fatalf("%s", msg)
 	}
 	if tampering {
-		out.applied, out.offset = []*tamperConn{ta, tb}[c.TDir].result()
+		tc := []*tamperConn{ta, tb}[c.TDir]
+		out.applied, out.offset = tc.result()
+		if out.applied && c.Tamper.Op == tTrunc {
+			out.cutClass, _, _ = tc.cutResult()
+		}
 	}
 	for d := 0; d < 2; d++ {
 		total := c.Dir[d].Total
@@ -181,12 +188,35 @@ func runConnCase(f failer, env runEnv, c *connCase, lp layerParams, setup secure
 				f.Fatalf("%s dir %d: %v: reader had received %d bytes at the first error, but the first tampered frame starts at plaintext offset %d",
 					c.Layer, d, c.Tamper, rd.gotAtErr, out.offset)
 			}
+			if c.Tamper.Op == tTrunc {
+				checkCleanEnd(f, c, d, out.cutClass, rd, out.wr[d])
+			}
 		default:
 			// the other direction of a channel that may shut down as a whole (TLS alert): prefix only,
 			// already checked byte by byte by the reader
 		}
 	}
 	return out
+}
+
+// findingNoiseAfterPrefix: see TestWitness_NoiseCutAfterLengthPrefix (repaired in /repo; nothing is excluded here).
+const findingNoiseAfterPrefix = "C02-noise-cut-after-length-prefix-clean-eof"
+
+// checkCleanEnd is the truncation rule: the byte stream under the session ended (FIN, no
+// error underneath) inside a frame, so bytes that the writer's Write had accepted never
+// reached the reader. The reader must not be told that the stream ended normally: the error
+// that ends its Read sequence must not be io.EOF (io.ReadAll, io.Copy, bufio.Scanner turn
+// io.EOF into "no error"). A cut exactly between two frames is the byte sequence a writer
+// produces who closes after those frames: there io.EOF is as good as any other error.
+func checkCleanEnd(f failer, c *connCase, d, class int, rd readResult, accepted int) {
+	if class == cutAtBoundary || class == cutNothingLost {
+		return
+	}
+	if errors.Is(rd.err, io.EOF) {
+		f.Fatalf("%s dir %d: %v: the byte stream under the session ended %s (FIN); Write had accepted %d bytes, the reader received %d and then got %v: "+
+			"a stream that lost bytes in transit is reported as a clean end (io.ReadAll returns a nil error)",
+			c.Layer, d, c.Tamper, cutClassNames[class], accepted, rd.got, rd.err)
+	}
 }
 
 func handshake(ctx context.Context, out, in sec.SecureTransport, rawA, rawB net.Conn, idB *keys.Identity) (net.Conn, net.Conn, error) {
@@ -332,10 +362,31 @@ func connLabels(c *connCase, lp layerParams, out connOutcome) (labels []string, 
 		if out.applied {
 			nontrivial = true
 			l := "tamper:" + tamperNames[c.Tamper.Op]
-			if c.Tamper.Op == tFlip || c.Tamper.Op == tTrunc {
+			if c.Tamper.Op == tFlip {
 				l += ":" + pcNames[c.Tamper.Pos]
 			}
 			add(l)
+			if c.Tamper.Op == tTrunc {
+				add("cut:" + tcNames[c.Tamper.Cut])
+				add("cut-lies:" + cutClassNames[out.cutClass])
+				rd := out.rd[c.TDir]
+				if out.cutClass == cutAtBoundary {
+					add("cut-verdict:either(indistinguishable from a close)")
+				} else {
+					add("cut-verdict:error-other-than-EOF-required")
+				}
+				if errors.Is(rd.err, io.EOF) {
+					add("cut-reader-saw:io.EOF")
+				} else {
+					add("cut-reader-saw:other-error")
+				}
+				if c.Tamper.Frame > 0 && rd.got > 0 {
+					add("cut:after-delivered-frames")
+				}
+				if c.Chop[1-c.TDir].EOFWithData {
+					add("cut:EOF-reported-with-the-last-bytes-underneath")
+				}
+			}
 			if c.Tamper.Frame > 0 {
 				add("tamper:later-frame")
 			} else {
